@@ -338,6 +338,16 @@ def seqspec_probe(ctx):
             ok = False
         ctx.check('equal frozen => equal hash and dict key', ok, K_SEQ, case,
                   'frozen sequencer_specific message with list data is unhashable')
+        # whatever the data type: freezing and thawing keep the message equal to the original
+        ctx.check('freeze gives the frozen class, equal', f == m and freeze_message(m.copy()) == m, 'freeze-changes-list-data',
+                  case, repr(vars(f)))
+        ctx.check('thaw(freeze(m)) == m', thaw_message(f) == m and type(thaw_message(f)) is MetaMessage,
+                  'thaw-changes-list-data', case, repr(vars(thaw_message(f))))
+    u = UnknownMetaMessage(0x60, (1, 2))
+    u.data = [1, 2]                                  # assigned after construction: stored as given
+    fu = freeze_message(u)
+    ctx.check('freeze gives the frozen class, equal', fu == u and thaw_message(fu) == u, 'freeze-changes-list-data',
+              {'kind': 'seqspec', 'data': 'unknown meta with list data'}, repr(vars(fu)))
 
 
 def none_cases(ctx):
